@@ -1,6 +1,7 @@
 package main
 
 import (
+	"math/big"
 	"fmt"
 	"sort"
 	"strings"
@@ -419,6 +420,29 @@ func c08History(r *Rec, hI int, steps int) {
 				if _, ok := finals[p.ProposalId]; !ok {
 					if cp := props[p.ProposalId]; cp != nil && (now < cp.votingEnd || height < cp.minVoteH) {
 						r.Fail("C08/finalised-before-voting-window-closed", fmt.Sprintf("%s: proposal %d finalised (%s) at t=%d h=%d, voting end %d, min height %d", tag, p.ProposalId, cur, now, height, cp.votingEnd, cp.minVoteH), nil)
+					}
+				}
+				if _, ok := finals[p.ProposalId]; !ok && (cur == "enactment" || cur == "passed") {
+					// first sight of a proposal that PASSED: judged against the votes on record and the electorate of this
+					// moment by the property's own rule (turnout of at least the quorum, yes votes more than half of the votes
+					// cast), in exact integer arithmetic
+					c := ctxAt()
+					votes := k.GetProposalVotes(c, p.ProposalId)
+					yes := 0
+					for _, v := range votes {
+						if v.Option == govtypes.OptionYes {
+							yes++
+						}
+					}
+					if content := p.GetContent(); content != nil && content.VotePermission() != govtypes.PermZero {
+						elig := len(k.GetNetworkActorsByAbsoluteWhitelistPermission(c, content.VotePermission()))
+						q := k.GetNetworkProperties(c).VoteQuorum.BigInt() // quorum * 10^18
+						lhs := new(big.Int).Mul(big.NewInt(int64(len(votes))), new(big.Int).Exp(big.NewInt(10), big.NewInt(18), nil))
+						rhs := new(big.Int).Mul(big.NewInt(int64(elig)), q)
+						r.Count("oracle:C08/lifecycle/passed")
+						if lhs.Cmp(rhs) < 0 || 2*yes <= len(votes) {
+							r.Fail("C08/lifecycle/passed-against-votes-on-record", fmt.Sprintf("%s: proposal %d is %s with %d yes of %d votes on record, %d eligible voters, quorum %s", tag, p.ProposalId, cur, yes, len(votes), elig, k.GetNetworkProperties(c).VoteQuorum), nil)
+						}
 					}
 				}
 				finals[p.ProposalId] = cur
